@@ -321,10 +321,17 @@ def perturb(rng, m):
     import copy
     b = copy.deepcopy(m)
     rows = [k for k in b["trans"] if not b["absorbing"][int(k.split(",")[0])]]
-    for k in rng.sample(rows, min(len(rows), rng.randint(1, 3))):
+    # certain rows (self-loops, deterministic cycles) are what closed classes are made of: leaking out of one
+    # turns a closed class into a transient one -- always include one when there is one
+    certain = [k for k in rows if len([1 for ns, p in b["trans"][k] if F(p) != 0]) == 1]
+    chosen = rng.sample(rows, min(len(rows), rng.randint(1, 3)))
+    if certain:
+        k0 = rng.choice(certain)
+        chosen = [k0] + [k for k in chosen if k != k0]
+    for idx, k in enumerate(chosen):
         s, a = map(int, k.split(","))
         row = [[ns, F(p)] for ns, p in b["trans"][k] if F(p) != 0]
-        op = rng.choice(["leak", "leak", "drop", "resplit"])
+        op = "leak" if (idx == 0 and certain) else rng.choice(["leak", "leak", "drop", "resplit"])
         succ = [ns for ns, _ in row]
         others = [x for x in range(b["n"]) if x not in succ]
         if op == "leak" and others:
@@ -356,7 +363,7 @@ def gen_sweep(rng, tier):
     again (sometimes a further perturbation C): undiscounted, every state initial (so all problems of the
     sweep have the same state list)"""
     nmax = 5 if tier == "quick" else 7
-    base = rng.choice(["blocks", "recurrent", "farms"])
+    base = rng.choice(["blocks", "recurrent", "farms", "farms"])
     if base == "blocks":
         a = gen_blocks(rng, nmax)
     elif base == "farms":
@@ -367,6 +374,8 @@ def gen_sweep(rng, tier):
         ps = gen_mdp._split_prob(rng, a["n"])
         a["init"] = [[s, str(p)] for s, p in zip(range(a["n"]), ps)]
     b = perturb(rng, a)
+    if rng.random() < .5:
+        a, b = b, a        # either direction: closed -> leaky (too few equations reused) or leaky -> closed (too many)
     more = [b, a] if rng.random() < .6 else [b, perturb(rng, b), a]
     return a, more
 
@@ -398,16 +407,16 @@ def gen_case(rng, tier):
     elif r < .57:
         kind = "undisc-terminal-either-sign"  # terminal states exist but need not be reached
         m = _either_sign(rng, nmax=nmax, amax=3, min_states=2)
-    elif r < .66:
+    elif r < .64:
         kind = "undisc-recurrent"             # no explicit terminal states: unichain or multichain by chance
         m = _either_sign(rng, nmax=nmax, amax=3, min_states=2, goal=False)
-    elif r < .74:
+    elif r < .71:
         kind = "undisc-blocks"                # multichain by construction
         m = gen_blocks(rng, nmax)
-    elif r < .84:
+    elif r < .80:
         kind = "undisc-farms"                 # gain-class choice with exact / near bias ties
         m = gen_farms(rng)
-    elif r < .92:
+    elif r < .88:
         kind = "undisc-large-costs"           # costs ~ -1000 .. -100, state-dependent action sets, no terminal state
         m = gen_large_costs(rng)
     else:
